@@ -751,13 +751,26 @@ class Builtins:
         n = self.ctx.slen(lst.z)
         r = self.ctx.fresh("index_res", I)
         k = self.ctx.bound("k_idx")
-        eq_at = lambda j: z3.Or(self.identical_or_false(self.ctx.sitem(lst, j), x), self.py_eq(self.ctx.sitem(lst, j), x, node))
-        present = z3.Exists([k], z3.And(0 <= k, k < n, eq_at(k)))
+        eq_plain = lambda j: z3.Or(self.identical_or_false(self.ctx.sitem(lst, j), x), self.py_eq(self.ctx.sitem(lst, j), x, node))
+
+        def eq_bound(j, rng):
+            # comparison at a bound index: evaluated parametrically (see Ops.contains)
+            self.ctx.push_param(j, rng)
+            self.ctx.no_branch += 1
+            try:
+                return eq_plain(j)
+            finally:
+                self.ctx.no_branch -= 1
+                self.ctx.pop_param()
+        rng_k = z3.And(0 <= k, k < n)
+        present = z3.Exists([k], z3.And(rng_k, eq_bound(k, rng_k)))
         if not self.spec:
             self.ctx.oblige("safety.index_value_present", present, node)
             self.ctx.assume(present)
-        self.ctx.assume(z3.And(0 <= r, r < n, eq_at(r)))
-        self.ctx.assume(z3.ForAll([k], z3.Implies(z3.And(0 <= k, k < r), z3.Not(eq_at(k)))))
+        self.ctx.assume(z3.And(0 <= r, r < n, eq_plain(r)))
+        k2 = self.ctx.bound("k_idx2")
+        rng2 = z3.And(0 <= k2, k2 < r)
+        self.ctx.assume(z3.ForAll([k2], z3.Implies(rng2, z3.Not(eq_bound(k2, rng2)))))
         return VInt(r)
 
     def slist_comprehension(self, e, first, cf):
